@@ -1,0 +1,195 @@
+// Copyright 2020 TiKV Project Authors. Licensed under Apache-2.0.
+
+//! Verification hooks. Only compiled with `--cfg fastrace_verif`.
+//!
+//! The hooks let an external harness (1) observe and park a thread right before each ring-buffer
+//! push and at every step of a collector cycle, (2) run collector cycles on a thread of its
+//! choosing, (3) read the collector's retained state and (4) shrink the built-in capacities so
+//! that "full" is reachable. With no callback registered each hook is one relaxed load.
+
+use std::sync::Arc;
+use std::sync::Mutex;
+use std::sync::RwLock;
+use std::sync::atomic::AtomicBool;
+use std::sync::atomic::AtomicUsize;
+use std::sync::atomic::Ordering;
+
+/// A point in the code at which the registered callback is invoked. The callback may block.
+#[derive(Debug, Clone)]
+pub enum Point {
+    /// `send_command` / `force_send_command` is about to hand a command to the thread's sender.
+    Command {
+        kind: &'static str,
+        collect_ids: Vec<usize>,
+        forced: bool,
+    },
+    /// The thread is about to attempt one `push` on its ring. `via` is one of `replay` (a parked
+    /// command), `send`, `force`, `exit` (flush of parked commands in `Sender::drop`). `full` is
+    /// the ring's state as seen by the producer right now.
+    Push {
+        chan: usize,
+        via: &'static str,
+        full: bool,
+    },
+    /// `Sender::drop` has finished flushing; the producer half is released right after.
+    SenderDropped { chan: usize },
+    /// `handle_commands` starts.
+    CycleBegin,
+    /// The collector is about to drain this receiver.
+    DrainRx { chan: usize },
+    /// The receiver was seen empty; `is_abandoned()` is evaluated right after.
+    RecvEmpty { chan: usize },
+    /// The receiver was found closed and is removed from the registry.
+    RxRemoved { chan: usize },
+    /// All receivers have been drained; the batch is about to be processed.
+    BeforeProcess {
+        starts: Vec<usize>,
+        drops: Vec<usize>,
+        commits: Vec<usize>,
+        submits: Vec<Vec<usize>>,
+    },
+    /// `handle_commands` is done (the reporter, if any, has been called).
+    CycleEnd,
+}
+
+type Hook = Arc<dyn Fn(&Point) + Send + Sync>;
+
+static HOOK_SET: AtomicBool = AtomicBool::new(false);
+static HOOK: RwLock<Option<Hook>> = RwLock::new(None);
+static NEXT_CHAN: AtomicUsize = AtomicUsize::new(0);
+static RING_CAP: AtomicUsize = AtomicUsize::new(0);
+static QUEUE_CAP: AtomicUsize = AtomicUsize::new(0);
+static STACK_CAP: AtomicUsize = AtomicUsize::new(0);
+static MANUAL: AtomicBool = AtomicBool::new(false);
+
+/// Registers (or removes) the callback.
+pub fn set_hook(hook: Option<Hook>) {
+    let mut slot = HOOK.write().unwrap_or_else(|e| e.into_inner());
+    HOOK_SET.store(hook.is_some(), Ordering::SeqCst);
+    *slot = hook;
+}
+
+#[inline]
+pub fn enabled() -> bool {
+    HOOK_SET.load(Ordering::Relaxed)
+}
+
+#[inline]
+pub fn fire(point: impl FnOnce() -> Point) {
+    if !enabled() {
+        return;
+    }
+    let hook = HOOK.read().unwrap_or_else(|e| e.into_inner()).clone();
+    if let Some(hook) = hook {
+        hook(&point());
+    }
+}
+
+static CHANS: Mutex<Vec<(usize, usize)>> = Mutex::new(Vec::new());
+
+/// Gives the ring buffer at `addr` the next channel number. Rings are identified by address so
+/// that no field has to be added to `Sender`/`Receiver`; an address is reused only after both
+/// halves of its previous ring are gone.
+pub(crate) fn register_chan(addr: usize) {
+    let chan = NEXT_CHAN.fetch_add(1, Ordering::SeqCst);
+    let mut chans = CHANS.lock().unwrap_or_else(|e| e.into_inner());
+    chans.retain(|(a, _)| *a != addr);
+    chans.push((addr, chan));
+}
+
+pub(crate) fn chan_of(addr: usize) -> usize {
+    let chans = CHANS.lock().unwrap_or_else(|e| e.into_inner());
+    chans
+        .iter()
+        .find(|(a, _)| *a == addr)
+        .map(|(_, c)| *c)
+        .unwrap_or(usize::MAX)
+}
+
+pub(crate) fn push_point(addr: usize, via: &'static str, full: bool) {
+    if enabled() {
+        let chan = chan_of(addr);
+        fire(|| Point::Push { chan, via, full });
+    }
+}
+
+pub(crate) fn sender_dropped(addr: usize) {
+    if enabled() {
+        let chan = chan_of(addr);
+        fire(|| Point::SenderDropped { chan });
+    }
+}
+
+fn pick(cell: &AtomicUsize, default: usize) -> usize {
+    match cell.load(Ordering::SeqCst) {
+        0 => default,
+        n => n,
+    }
+}
+
+/// Capacity of command rings created from now on (0 = built-in default).
+pub fn set_ring_capacity(n: usize) {
+    RING_CAP.store(n, Ordering::SeqCst)
+}
+
+pub(crate) fn ring_capacity(default: usize) -> usize {
+    pick(&RING_CAP, default)
+}
+
+/// Capacity of local span queues created from now on (0 = built-in default).
+pub fn set_queue_capacity(n: usize) {
+    QUEUE_CAP.store(n, Ordering::SeqCst)
+}
+
+pub(crate) fn queue_capacity(default: usize) -> usize {
+    pick(&QUEUE_CAP, default)
+}
+
+/// Capacity of local span stacks created from now on (0 = built-in default).
+pub fn set_stack_capacity(n: usize) {
+    STACK_CAP.store(n, Ordering::SeqCst)
+}
+
+pub(crate) fn stack_capacity(default: usize) -> usize {
+    pick(&STACK_CAP, default)
+}
+
+/// In manual mode the background collector thread is held before its next cycle.
+pub fn set_manual(manual: bool) {
+    MANUAL.store(manual, Ordering::SeqCst)
+}
+
+pub(crate) fn background_gate() {
+    while MANUAL.load(Ordering::SeqCst) {
+        std::thread::sleep(std::time::Duration::from_millis(1));
+    }
+}
+
+/// What the collector retains for one active trace.
+#[derive(Debug, Clone, Default)]
+pub struct ActiveStats {
+    pub collect_id: usize,
+    pub buffered_sets: usize,
+    pub danglings: usize,
+}
+
+#[derive(Debug, Clone, Default)]
+pub struct Stats {
+    pub active: Vec<ActiveStats>,
+    pub receivers: Vec<usize>,
+}
+
+/// Runs one collector cycle on the calling thread.
+pub fn run_collector_cycle() {
+    crate::collector::global_collector::verif_run_cycle()
+}
+
+/// Snapshot of the collector's retained state. Takes the collector's locks.
+pub fn collector_stats() -> Stats {
+    crate::collector::global_collector::verif_stats()
+}
+
+/// Makes sure the calling thread's command sender exists and returns its channel number.
+pub fn touch_sender() -> Option<usize> {
+    crate::collector::global_collector::verif_touch_sender()
+}
